@@ -181,13 +181,14 @@ def c07(ctx):
     n_streams = ctx.n(25, 300)
     for si in range(n_streams):
         rdf11 = r.random() < 0.5
-        st = fam_parse.ref_stream(ctx, rdf11=rdf11)
+        st = fam_parse.ref_stream(ctx, rdf11=rdf11, churn=si % 2 == 1)
         if st is None:
             continue
         enc = st["enc"]
         rows = enc.rows
-        if len(rows) > 40:
+        if len(rows) > 60:
             continue
+        ctx.report.count(f"C07/stream re-uses an id pair for another IRI={enc.pair_reuse > 0}")
         for cuts in partitions(len(rows), r, ctx.n(24, 128)):
             cuts2 = with_empties(cuts, r) if r.random() < 0.5 else cuts
             md = {}
